@@ -14,6 +14,7 @@ const winN = 8192
 
 func init() {
 	register("C09", func(c *Ctx) {
+		windowInvProg = c.P
 		c.Explain = "Structural necessary conditions of a false-negative-free event index, decided on SSA (terms, dominance, must-hold DNF, φ shapes): " +
 			"(bloom-key-agreement) the writer of per-block blooms and every reader encode addresses and (key, position) identically; (fresh-key-buffer) lookup keys handed to the aggregated filter never share a backing array; " +
 			"(window-keys) every persisted/cached window key is (aligned start, start+8191); (running-precedence) the window of the running filter is never served from the cache or the persisted copy and fetched windows are bounds-checked before caching; " +
@@ -250,6 +251,18 @@ func windowPair(from, to ssa.Value, depth int) (bool, string) {
 	for _, pr := range [][2]string{{".FromBlock()", ".ToBlock()"}, {".fromBlock", ".toBlock"}} {
 		if strings.HasSuffix(tf, pr[0]) && strings.HasSuffix(tt, pr[1]) && strings.TrimSuffix(tf, pr[0]) == strings.TrimSuffix(tt, pr[1]) {
 			return true, "bounds of one filter/key object"
+		}
+	}
+	// both are fields of one value of a window struct type whose every construction keeps the pair a window
+	if bf, fi, okf := fieldRead(from); okf {
+		if bt, ti, okt := fieldRead(to); okt && bf == bt && fi != ti {
+			if n := namedOf(bf.Type()); n != nil {
+				if ok, why := windowTypeInv(n, fi, ti, depth+1); ok {
+					return true, "fields of a " + n.Obj().Name() + ", a type whose every construction is an aligned window"
+				} else if why != "" {
+					return false, "window type " + n.Obj().Name() + ": " + why
+				}
+			}
 		}
 	}
 	// loop-carried pair decremented/incremented together
@@ -521,6 +534,27 @@ func c09ReorgFn(c *Ctx, f *ssa.Function, fixture bool) {
 	c.check(okCross, "reorg", name+": cross condition", p.Pos(posOf(stInner, f)), "the previous window is loaded exactly when the reverted block is the one before the window start", "the boundary-cross condition changed: "+miss)
 	ok, why := windowPair(get.Args()[1], get.Args()[2], 0)
 	gt := termF(get.Args()[1])
+	// the start may be a field of a window value built by a same-package constructor: take the constructor's term
+	if b, fi, isF := fieldRead(get.Args()[1]); isF {
+		base := b
+		if ld, isLd := b.(*ssa.UnOp); isLd {
+			if a, isA := ld.X.(*ssa.Alloc); isA {
+				if st := singleStore(a); st != nil {
+					base = st.Val
+				}
+			}
+		}
+		if a, isA := b.(*ssa.Alloc); isA {
+			if st := singleStore(a); st != nil {
+				base = st.Val
+			}
+		}
+		if lf := structLiteralFields(base, 0); lf != nil {
+			if t, has := lf[fieldName(b.Type(), fi)]; has {
+				gt = t
+			}
+		}
+	}
 	c.check(ok && strings.Contains(gt, "(f.next - 1) - ((f.next - 1) % 8192)"), "reorg", name+": previous window", p.Pos(get.Pos()), "window containing the reverted block", "the window reloaded on a cross is not the one containing the reverted block ("+gt+"): "+why)
 	c.check(strings.Trim(term(stNext.Val), "()") == "f.next - 1", "reorg", name+": next", p.Pos(posOf(stNext, f)), "next = next - 1", "next is set to "+term(stNext.Val))
 	clr := findSite(f, "clear")
@@ -1061,4 +1095,98 @@ func c09ScanLimitToken(c *Ctx) {
 	if n == 0 {
 		c.und("scan-limit-token", "canonicalEvents", p.Pos(fnPos(f)), "scan-limit token return not found")
 	}
+}
+
+
+// fieldRead: v reads field idx of a struct value / pointee base.
+func fieldRead(v ssa.Value) (ssa.Value, int, bool) {
+	switch x := stripConv(v).(type) {
+	case *ssa.Field:
+		return x.X, x.Field, true
+	case *ssa.UnOp:
+		if fa, ok := x.X.(*ssa.FieldAddr); ok && x.Op == token.MUL {
+			return fa.X, fa.Field, true
+		}
+	}
+	return nil, 0, false
+}
+
+var windowInvProg *Prog
+
+// windowTypeInv: every place of T's package that builds a T sets fields (fi, ti) to a window pair — computed from scratch
+// (windowPair), or both fields of another T moved by the window size — and no code updates one of the two fields of an
+// existing T on its own.
+func windowTypeInv(n *types.Named, fi, ti int, depth int) (bool, string) {
+	p := windowInvProg
+	if p == nil || depth > 4 {
+		return false, ""
+	}
+	isT := func(t types.Type) bool {
+		if pt, ok := types.Unalias(t).(*types.Pointer); ok {
+			t = pt.Elem()
+		}
+		m := namedOf(t)
+		return m != nil && m.Obj() == n.Obj()
+	}
+	built := 0
+	for _, fn := range p.sortedFuncs() {
+		if fn.Pkg == nil || n.Obj().Pkg() == nil || fn.Pkg.Pkg != n.Obj().Pkg() {
+			continue
+		}
+		type pair struct{ f, t ssa.Value }
+		lits := map[ssa.Value]*pair{}
+		bad := ""
+		allInstrs(fn, func(in ssa.Instruction) {
+			st, ok := in.(*ssa.Store)
+			if !ok {
+				return
+			}
+			fa, ok := st.Addr.(*ssa.FieldAddr)
+			if !ok || !isT(fa.X.Type()) || (fa.Field != fi && fa.Field != ti) {
+				return
+			}
+			if _, fresh := fa.X.(*ssa.Alloc); !fresh {
+				bad = "a bound of an existing " + n.Obj().Name() + " is overwritten in " + qname(fn)
+				return
+			}
+			pr := lits[fa.X]
+			if pr == nil {
+				pr = &pair{}
+				lits[fa.X] = pr
+			}
+			if fa.Field == fi {
+				pr.f = st.Val
+			} else {
+				pr.t = st.Val
+			}
+		})
+		if bad != "" {
+			return false, bad
+		}
+		for _, pr := range lits {
+			built++
+			if pr.f == nil || pr.t == nil {
+				return false, "a " + n.Obj().Name() + " is built with only one bound in " + qname(fn)
+			}
+			// both bounds of another window, moved by the window size
+			if bfv, okf := stripConv(pr.f).(*ssa.BinOp); okf {
+				if btv, okt := stripConv(pr.t).(*ssa.BinOp); okt && bfv.Op == btv.Op && (bfv.Op == token.SUB || bfv.Op == token.ADD) {
+					kf, okk1 := constUint(stripConv(bfv.Y))
+					kt, okk2 := constUint(stripConv(btv.Y))
+					b1, i1, o1 := fieldRead(bfv.X)
+					b2, i2, o2 := fieldRead(btv.X)
+					if okk1 && okk2 && kf == winN && kt == winN && o1 && o2 && b1 == b2 && i1 == fi && i2 == ti && isT(b1.Type()) {
+						continue
+					}
+				}
+			}
+			if ok, why := windowPair(pr.f, pr.t, depth+1); !ok {
+				return false, "built in " + qname(fn) + ": " + why
+			}
+		}
+	}
+	if built == 0 {
+		return false, "no construction of the type found"
+	}
+	return true, ""
 }
